@@ -434,6 +434,10 @@ func loadBuiltinFromJSON() error {
 				continue
 			}
 
+			if base.IsInheritanceCycle(classNode, parentNode) {
+				continue
+			}
+
 			base.ClassInheritanceMap[classNode] =
 				append(base.ClassInheritanceMap[classNode], parentNode)
 		}
